@@ -17,6 +17,7 @@ import (
 	"encoding/xml"
 	"errors"
 	"io"
+	"strconv"
 	"sync"
 
 	"mellium.im/xmlstream"
@@ -97,10 +98,27 @@ func (h *Handler) HandleMessage(msg stanza.Message, t xmlstream.TokenReadEncoder
 	d := xml.NewTokenDecoder(t)
 	p := dataMessage{}
 	err := d.Decode(&p)
+	if isBadAttr(err) {
+		_, err = xmlstream.Copy(t, msg.Error(stanza.Error{
+			Type:      stanza.Modify,
+			Condition: stanza.BadRequest,
+		}))
+		return err
+	}
 	if err != nil {
 		return err
 	}
 	return handlePayload(h, msg, p.Data, t)
+}
+
+// isBadAttr reports whether decoding a data packet failed because one of its
+// attributes is not the number it should be (for instance a sequence number
+// that does not fit into 16 bits).
+// That is the peer's mistake and is answered with a stanza error like any other
+// packet that cannot be used; it is not a reason to end the session.
+func isBadAttr(err error) bool {
+	var numErr *strconv.NumError
+	return errors.As(err, &numErr)
 }
 
 // HandleIQ implements mux.IQHandler.
@@ -144,6 +162,13 @@ func (h *Handler) HandleIQ(iq stanza.IQ, t xmlstream.TokenReadEncoder, start *xm
 		d := xml.NewTokenDecoder(xmlstream.MultiReader(xmlstream.Token(*start), t))
 		p := dataPayload{}
 		err := d.Decode(&p)
+		if isBadAttr(err) {
+			_, err = xmlstream.Copy(t, iq.Error(stanza.Error{
+				Type:      stanza.Modify,
+				Condition: stanza.BadRequest,
+			}))
+			return err
+		}
 		if err != nil {
 			return err
 		}
